@@ -34,6 +34,15 @@ def cases(tier, seed):
         convert = rng.random() < 0.7
         kinds = ["line", "quad", "cubic", "mixed"] if convert else ["line", "quad"]
         glyphs = gen.glyphset(rng, kinds=kinds, palette=PALETTE_TT, unicodes=True)
+        if rng.random() < 0.3:
+            # the source brings its own '.notdef' (an outline glyph like any other)
+            used = {c["b"] for g in glyphs.values() for c in g["comps"]}
+            cand = [n_ for n_, g in glyphs.items() if g["cs"] and not g["comps"] and n_ not in used]
+            if cand:
+                n_ = rng.choice(cand)
+                g_ = glyphs.pop(n_)
+                g_["u"] = []
+                glyphs = {".notdef": g_, **glyphs}
         kwargs = {"convertCubics": convert, "reverseDirection": rng.random() < 0.8,
                   "flattenComponents": rng.random() < 0.5}
         info = {"unitsPerEm": 1000, "ascender": 800, "descender": -200}
